@@ -148,6 +148,8 @@ def main(argv):
             return REPLAYERS[prop](argv[2], seed)
         return replay_file(prop, argv[2], seed)
     tier = argv[1] if len(argv) > 1 else os.environ.get("VERIF_TIER", "quick")
+    if len(argv) > 2 and argv[2].isdigit():       # bin/vcheck Cxx quick 3  ==  VERIF_SEED=3 bin/vcheck Cxx quick
+        seed = int(argv[2])
     return lib.main_wrapper(PROPS[prop], prop, tier, seed)
 
 
